@@ -1,6 +1,7 @@
 package govc
 
 import (
+	"golang.org/x/tools/go/ssa"
 	"encoding/json"
 	"fmt"
 	"os"
@@ -264,10 +265,6 @@ func RunCheck(id, tier, repo string, seed int, updateBaseline, quiet, writeEvide
 		}
 	}
 	sort.Strings(missing)
-	if len(missing) > 0 {
-		fmt.Printf("UNDECIDED property=%s: functions under contract no longer exist: %s\n", id, strings.Join(missing, ", "))
-		return CheckResult{Exit: 2}
-	}
 	if len(names) == 0 {
 		fmt.Printf("UNDECIDED property=%s: no function under contract matches\n", id)
 		return CheckResult{Exit: 2}
@@ -328,6 +325,7 @@ func RunCheck(id, tier, repo string, seed int, updateBaseline, quiet, writeEvide
 	var failed []ObResult
 	var knownHit []string
 	var vacuityBad []string
+	var vacuityOpen []string // reachability covers no solver could settle either way (satisfiability under quantified hypotheses)
 	generated := map[string]bool{}
 	solverTime := 0.0
 	smtBytes := 0
@@ -347,6 +345,8 @@ func RunCheck(id, tier, repo string, seed int, updateBaseline, quiet, writeEvide
 		if r.Ob.Class == "vacuity" {
 			if r.Res.Status == "unsat" {
 				vacuityBad = append(vacuityBad, r.Ob.Name)
+			} else if r.Res.Status != "sat" {
+				vacuityOpen = append(vacuityOpen, r.Ob.Name)
 			}
 			continue
 		}
@@ -417,6 +417,11 @@ func RunCheck(id, tier, repo string, seed int, updateBaseline, quiet, writeEvide
 	}
 	if len(failed) > 0 {
 		res.Exit = 1
+	}
+	if len(missing) > 0 && res.Exit == 0 {
+		// the remaining functions were still verified above: a failed obligation there is reported as a violation first
+		fmt.Printf("UNDECIDED property=%s: functions under contract no longer exist: %s\n", id, strings.Join(missing, ", "))
+		res.Exit = 2
 	}
 	if len(vacuityBad) > 0 && res.Exit == 0 {
 		fmt.Printf("UNDECIDED property=%s: vacuous preconditions or unreachable guards: %s\n", id, strings.Join(vacuityBad, ", "))
@@ -492,6 +497,54 @@ func RunCheck(id, tier, repo string, seed int, updateBaseline, quiet, writeEvide
 			}
 			addA("callee contract used modularly: " + c + " — " + where)
 		}
+		// preconditions of verified functions are proved only at call sites inside verified functions
+		for _, n := range names {
+			fn := eng.Funcs[n]
+			if fn == nil {
+				continue
+			}
+			fc := eng.ContractOf(fn)
+			if fc == nil || len(fc.Requires) == 0 {
+				continue
+			}
+			var outside []string
+			for _, caller := range eng.AllFuncs {
+				if caller.Blocks == nil || !eng.InModule(caller) {
+					continue
+				}
+				cn := FullName(caller)
+				verified := false
+				for _, pc := range props {
+					if anyMatch(pc.Functions, cn) && !anyMatch(pc.Exclude, cn) {
+						verified = true
+					}
+				}
+				if verified {
+					continue
+				}
+				calls := false
+				for _, b := range caller.Blocks {
+					for _, ins := range b.Instrs {
+						if ci, ok := ins.(ssa.CallInstruction); ok && ci.Common().StaticCallee() == fn {
+							calls = true
+						}
+					}
+				}
+				if calls {
+					outside = append(outside, shortName(cn))
+				}
+			}
+			var reqs []string
+			for _, r := range fc.Requires {
+				reqs = append(reqs, r.Src)
+			}
+			if len(outside) > 0 {
+				sort.Strings(outside)
+				addA("precondition assumed, not proved, at callers outside every check: " + shortName(n) + " requires " + strings.Join(reqs, " && ") + " — callers: " + strings.Join(outside, ", "))
+			} else if fn.Signature.Recv() != nil || fn.Object() != nil && fn.Object().Exported() {
+				addA("entry precondition (callers through interfaces, function values or other programs are not checked): " + shortName(n) + " requires " + strings.Join(reqs, " && "))
+			}
+		}
 		for _, a := range trustedAssumptions() {
 			addA(a)
 		}
@@ -522,6 +575,7 @@ func RunCheck(id, tier, repo string, seed int, updateBaseline, quiet, writeEvide
 			"discharged_by_solver":    bySolver,
 			"vacuity_guards":          countVacuity(results),
 			"vacuity_failed":          vacuityBad,
+			"vacuity_inconclusive":    vacuityOpen,
 			"known_findings_hit":      knownHit,
 			"failed_obligations":      failedNames,
 			"baseline_obligations":    len(baseline),
